@@ -15,6 +15,8 @@ Nothing is applied to /repo itself.
 """
 import json, os, re, shutil, subprocess, sys
 
+os.environ.setdefault('MUT_COMMITTED', '1')
+
 def sh(cmd, cwd=None, timeout=3600):
     p = subprocess.run(cmd, shell=True, cwd=cwd, capture_output=True, text=True, timeout=timeout)
     return p.returncode, p.stdout + p.stderr
